@@ -2,6 +2,7 @@ package main
 
 import (
 	"context"
+	"sync"
 	"time"
 
 	mqtt "github.com/at-wat/mqtt-go"
@@ -92,4 +93,69 @@ func runManualSwitch(sc *RetryScenario) *RetryResult {
 	cfg := map[string]interface{}{"deliverOnRel": false, "alwaysResub": false, "respTimeout": false, "autoRelease": true, "directQoS0": false, "mode": "manual",
 		"reconnBaseUs": 0, "reconnMaxUs": 0, "noReestablish": true, "hammer": false, "maxPayload": 0}
 	return &RetryResult{ID: sc.ID, Cfg: cfg, Evs: rec.Snapshot(), Info: info}
+}
+
+// runStopRace (C10, binding of spec/RetryStop.tla): Opts.StopApps goroutines each submit one QoS 1 publish through a
+// RetryClient while the main goroutine does SetClient, Connect and, a moment later, Disconnect.  The library's hooks
+// (all three fire under c.mu, after the state change) give the order of the critical sections: "set" (SetClient),
+// "push" n (pushTask: queue length after the append), "pop" n (task goroutine: queue length after the pop); each
+// goroutine reports what its Publish returned.  Process-global hook: run one scenario per process at a time.
+func runStopRace(sc *RetryScenario) *RetryResult {
+	hookMu.Lock()
+	defer hookMu.Unlock()
+	w := netsim.NewWorld(netsim.Plan{})
+	var mu sync.Mutex
+	evs := []netsim.Event{}
+	emit := func(e netsim.Event) {
+		mu.Lock()
+		evs = append(evs, e)
+		mu.Unlock()
+	}
+	mqtt.VerifSetHook(func(point string, args ...int64) {
+		switch point {
+		case "SetClient":
+			emit(netsim.Event{"e": "set", "n": 0, "res": ""})
+		case "pushTask":
+			emit(netsim.Event{"e": "push", "n": int(args[0]), "res": ""})
+		case "tgPop":
+			emit(netsim.Event{"e": "pop", "n": int(args[0]), "res": ""})
+		}
+	})
+	defer mqtt.VerifSetHook(nil)
+	ctx, cancel := context.WithTimeout(context.Background(), 5*time.Second)
+	defer cancel()
+	rc := &mqtt.RetryClient{}
+	var wg sync.WaitGroup
+	start := make(chan struct{})
+	for a := 0; a < sc.Opts.StopApps; a++ {
+		a := a
+		wg.Add(1)
+		go func() {
+			defer wg.Done()
+			<-start
+			time.Sleep(time.Duration((a*37+sc.Opts.StopSkewUs*(a%3))%400) * time.Microsecond)
+			err := rc.Publish(ctx, &mqtt.Message{Topic: "s", QoS: mqtt.QoS1, Payload: netsim.PayloadOf(a + 1)})
+			emit(netsim.Event{"e": "ret", "n": a + 1, "res": netsim.ErrClass(err)})
+		}()
+	}
+	close(start)
+	time.Sleep(time.Duration(sc.Opts.StopSkewUs%150) * time.Microsecond)
+	cli, err := w.Dial(ctx)
+	if err != nil {
+		return &RetryResult{ID: sc.ID, Info: map[string]interface{}{"infra": "dial: " + err.Error()}}
+	}
+	rc.SetClient(ctx, cli)
+	if _, err := rc.Connect(ctx, "stop"); err != nil {
+		return &RetryResult{ID: sc.ID, Info: map[string]interface{}{"infra": "connect: " + err.Error()}}
+	}
+	time.Sleep(time.Duration(sc.Opts.StopSkewUs%250) * time.Microsecond)
+	dctx, dcancel := context.WithTimeout(ctx, 2*time.Second)
+	derr := rc.Disconnect(dctx)
+	dcancel()
+	emit(netsim.Event{"e": "discret", "n": 0, "res": netsim.ErrClass(derr)})
+	wg.Wait()
+	time.Sleep(5 * time.Millisecond) // the task goroutine finishes what was accepted
+	mu.Lock()
+	defer mu.Unlock()
+	return &RetryResult{ID: sc.ID, Cfg: map[string]interface{}{"mode": "stop", "apps": sc.Opts.StopApps}, Evs: evs, Info: map[string]interface{}{}}
 }
